@@ -284,7 +284,10 @@ def run(ctx):
     n8 = 0
     for cr in (CORE, "metrique_writer"):
         for b in F.all_bodies(cr):
-            if not (b.name == "write" and b.impl and (b.impl.get("trait") or "").endswith("::Value")) or "::tests::" in b.path or "::test_util" in b.path:
+            # a Value::write body, or a private helper such a body delegates the collecting to (`collect_observations(values, unit, ..)`)
+            if "::tests::" in b.path or "::test_util" in b.path or b.kind == "Closure":
+                continue
+            if not (b.name == "write" and b.impl and (b.impl.get("trait") or "").endswith("::Value")) and (b.impl or {}).get("trait"):
                 continue
             own = [(i_, s_["lhs"]["l"]) for i_ in b.live_blocks() for s_ in b.stmts(i_) if s_["k"] == "assign" and s_["rv"]["k"] == "agg" and s_["rv"].get("adt") in vw_adts]
             # ... or obtains one from a private constructor (`ConvertingWriter::new(writer)`)
@@ -308,7 +311,7 @@ def run(ctx):
                           "the wrapped value is written to the caller's writer directly on some path, bypassing this type's own checking / converting writer: "
                           "a value that writes another unit than it declares is then emitted under the declared unit without a validation error",
                           "inner write goes through the body's own writer")
-    ctx.floor("R19.8", "inner writes in unit-aware Value::write bodies", n8, 2)
+    ctx.floor("R19.8", "inner writes in unit-aware Value::write bodies", n8, 1)
     # ------------------------------------------------------------------ R19.9 a collecting writer takes observations only under `written unit == promised unit`
     # the writers that gather the observations of a wrapped value (distribution / mean collectors) compare the unit they are handed with
     # the promised one they keep; the observations (parameter 2) are consumed only on paths that pass the `units are equal` outcome of
